@@ -248,6 +248,126 @@ fn part_a(sh: &mut Shard, rng: &mut Rng, dir: &Path, n: usize) {
     }
 }
 
+// ------------------------------------------------------------------ D
+// Saves through the runtime (RetainManager: change detection, save on request) with injected store failures:
+// every save the runtime acknowledges with Ok must be on disk, i.e. a fresh load equals the current retained values.
+
+struct FlakyStore {
+    inner: FileRetainStore,
+    /// number of upcoming store() calls that fail with an I/O-style error
+    fail_next: std::sync::Arc<std::sync::atomic::AtomicU64>,
+    calls: std::sync::Arc<std::sync::atomic::AtomicU64>,
+}
+
+impl RetainStore for FlakyStore {
+    fn load(&self) -> Result<RetainSnapshot, trust_runtime::error::RuntimeError> {
+        self.inner.load()
+    }
+    fn store(&self, snapshot: &RetainSnapshot) -> Result<(), trust_runtime::error::RuntimeError> {
+        use std::sync::atomic::Ordering;
+        self.calls.fetch_add(1, Ordering::SeqCst);
+        if self.fail_next.load(Ordering::SeqCst) > 0 {
+            self.fail_next.fetch_sub(1, Ordering::SeqCst);
+            return Err(trust_runtime::error::RuntimeError::RetainStore("injected: no space left on device".into()));
+        }
+        self.inner.store(snapshot)
+    }
+}
+
+const D_PROGRAM: &str = "CONFIGURATION C\nVAR_GLOBAL RETAIN gkeep : DINT; END_VAR\nVAR_GLOBAL hold : BOOL; END_VAR\nPROGRAM P : Main;\nEND_CONFIGURATION\nPROGRAM Main\nVAR RETAIN a : DINT; b : INT; END_VAR\nVAR_EXTERNAL gkeep : DINT; hold : BOOL; END_VAR\nIF NOT hold THEN\n  a := a + DINT#1;\n  b := b + INT#2;\n  gkeep := gkeep + DINT#3;\nEND_IF;\nEND_PROGRAM\n";
+
+fn part_d(sh: &mut Shard, rng: &mut Rng, dir: &Path, n: usize) {
+    use std::sync::atomic::{AtomicU64, Ordering};
+    use std::sync::Arc;
+    for i in 0..n {
+        if !sh.time_left() {
+            break;
+        }
+        let seed = rng.next();
+        let mut r = Rng::new(seed);
+        let nops = 4 + r.usize(30);
+        // ops: 0 = cycle changing the values, 1 = cycle holding them, 2 = save, 3 = arm k store failures
+        let ops: Vec<(u8, u64)> = (0..nops).map(|_| match r.below(8) { 0 | 1 => (0, 0), 2 | 3 => (1, 0), 4 | 5 | 6 => (2, 0), _ => (3, 1 + r.below(2)) }).collect();
+        let case = json!({"part": "D", "seed": seed.to_string(), "ops": ops});
+        if !sh.begin("D|acknowledged-save", &case) {
+            continue;
+        }
+        let path = dir.join(format!("d{i}.bin"));
+        let _ = std::fs::remove_file(&path);
+        let p2 = path.clone();
+        let ops2 = ops.clone();
+        let res = catch(move || -> Result<(u64, u64, u64), (String, String)> {
+            let mut h = trust_runtime::harness::TestHarness::from_source(D_PROGRAM).map_err(|e| ("harness".to_string(), e.to_string()))?;
+            let fail_next = Arc::new(AtomicU64::new(0));
+            let calls = Arc::new(AtomicU64::new(0));
+            h.runtime_mut().set_retain_store(Some(Box::new(FlakyStore { inner: FileRetainStore::new(p2.clone()), fail_next: fail_next.clone(), calls: calls.clone() })), None);
+            let (mut acked, mut failed, mut skipped_writes) = (0u64, 0u64, 0u64);
+            let mut n_changed = 0i64; // cycles that changed the retained values
+            for (k, (op, arg)) in ops2.iter().enumerate() {
+                match op {
+                    0 | 1 => {
+                        h.set_input("hold", *op == 1);
+                        h.advance_time(Duration::from_millis(10));
+                        let c = h.cycle();
+                        if let Some(e) = c.errors.first() {
+                            return Err(("D|cycle-error".into(), format!("op {k}: {e:?}")));
+                        }
+                        if *op == 0 {
+                            n_changed += 1;
+                        }
+                    }
+                    3 => fail_next.store(*arg, Ordering::SeqCst),
+                    _ => {
+                        let before = calls.load(Ordering::SeqCst);
+                        match h.runtime_mut().save_retain_store() {
+                            Err(_) => failed += 1,
+                            Ok(()) => {
+                                acked += 1;
+                                if calls.load(Ordering::SeqCst) == before {
+                                    skipped_writes += 1; // change detection: legitimate only if the file already holds these values
+                                }
+                                let on_disk = FileRetainStore::new(p2.clone()).load().map_err(|e| ("D|acknowledged-save-not-loadable".to_string(), format!("op {k}: save returned Ok, load fails: {e}")))?;
+                                let get = |name: &str| on_disk.values().iter().find(|(key, _)| key.eq_ignore_ascii_case(name) || key.to_ascii_lowercase().ends_with(&format!(".{}", name.to_ascii_lowercase()))).map(|(_, v)| canon(v));
+                                let want = [("a", canon(&Value::DInt(n_changed as i32))), ("b", canon(&Value::Int((2 * n_changed) as i16))), ("gkeep", canon(&Value::DInt((3 * n_changed) as i32)))];
+                                for (name, w) in want {
+                                    let got = get(name);
+                                    if got.as_deref() != Some(w.as_str()) {
+                                        return Err((
+                                            "D|acknowledged-save-not-on-disk".into(),
+                                            format!("op {k}: save_retain_store() returned Ok but the file holds {name} = {got:?}, the runtime holds {w} (store calls during this save: {}, earlier failed saves: {failed})", calls.load(Ordering::SeqCst) - before),
+                                        ));
+                                    }
+                                }
+                            }
+                        }
+                    }
+                }
+            }
+            Ok((acked, failed, skipped_writes))
+        });
+        match res {
+            Err(p) => sh.violation(format!("D|panic|{}", panic_sig(&p)), p, case.clone()),
+            Ok(Err((sig, d))) => {
+                if sig == "harness" {
+                    sh.inconclusive(d);
+                } else {
+                    sh.violation(sig, d, case.clone());
+                }
+            }
+            Ok(Ok((acked, failed, skipped))) => {
+                sh.count("D_acknowledged_saves_verified_on_disk", acked);
+                sh.count("D_saves_refused_by_injected_failure", failed);
+                sh.count("D_saves_skipped_as_unchanged", skipped);
+                if acked > 0 && failed > 0 {
+                    sh.nontrivial(&("D", seed));
+                }
+            }
+        }
+        let _ = std::fs::remove_file(&path);
+        sh.end();
+    }
+}
+
 // ------------------------------------------------------------------ B
 
 struct Call {
@@ -555,6 +675,7 @@ pub fn run(sh: &mut Shard) {
     part_a(sh, &mut rng.fork(1), &base, if thorough { 3000 } else { 150 });
     part_b(sh, &mut rng.fork(2), &base, if thorough { 12 } else { 2 });
     part_c(sh, &mut rng.fork(3), &base);
+    part_d(sh, &mut rng.fork(4), &base, if thorough { 20000 } else { 400 });
     let _ = std::fs::remove_dir_all(&base);
 }
 
